@@ -331,6 +331,10 @@ static ASMJIT_FAVOR_SIZE Error validate(InstDB::Mode mode, const BaseInst& inst,
             if (ASMJIT_UNLIKELY(common_info.has_avx512_bcst64() && mem_size != 8)) {
               return make_error(Error::kInvalidBroadcast);
             }
+
+            if (ASMJIT_UNLIKELY(common_info.has_avx512_bcst16() && mem_size != 2)) {
+              return make_error(Error::kInvalidBroadcast);
+            }
           }
           else {
             // If there is no size we implicitly calculate it so we can validate N in {1toN} properly.
